@@ -107,6 +107,39 @@ static void check_state_op(const reflist::List& start, const Op* o, const std::v
   R.outcome(hash64(list_json(l)) ^ (o ? mix64(o->kind) : 0));
 }
 
+// ---- (v) operation SEQUENCES: hidden state that survives one operation (a cached "sorted" flag, a stale size, an iterator
+// position) only shows after two or three steps, so every sequence of <= D operations over a reduced menu is run from a few
+// initial strings, every observer compared after every step
+static std::vector<Op> seq_menu() {
+  return {{0, "a", "1"}, {0, "b", "1"}, {0, "m", ""}, {1, "a", "1"}, {1, "b", ""}, {1, "m", "1"}, {1, "0", "1"}, {2, "a", ""}, {2, "b", ""},
+          {3, "a", "1"}, {4, "", ""}, {5, "b=2&a=1", ""}, {5, "", ""}};
+}
+static std::string seq_wit(const std::string& init, const std::vector<int>& idx) {
+  std::string ops;
+  for (size_t i = 0; i < idx.size(); i++) ops += (i ? "," : "") + std::to_string(idx[i]);
+  return JObj().str("kind", "params").str("sub", "seq").hexs("init", init).str("ops", ops).done();
+}
+static bool run_seq(const std::string& init, const std::vector<int>& idx, const std::vector<std::string>& K, const std::vector<std::string>& V) {
+  static const std::vector<Op> M = seq_menu();
+  R.evaluations++; R.nontrivial++;
+  set_case(seq_wit(init, idx));
+  ada::url_search_params p(init);
+  reflist::List l = reflist::construct(init);
+  std::string hist = "init(\"" + show(init) + "\")";
+  for (int i : idx) {
+    const Op& o = M[size_t(i)];
+    apply_both(p, l, o);
+    hist += std::string(".") + opn[o.kind] + "(\"" + show(o.k) + "\",\"" + show(o.v) + "\")";
+    std::string d = observers(p, l, K, V);
+    if (!d.empty()) {
+      viol(std::string("seq/") + d + ":" + opn[o.kind], hist + ": observer " + d + " differs; model=" + list_show(l) + " ada=" + list_show(contents(p)), seq_wit(init, idx), idx.size() * 10 + init.size());
+      return false;
+    }
+  }
+  R.outcome(hash64(list_json(l)));
+  return true;
+}
+
 int main(int argc, char** argv) {
   Args A = parse_args(argc, argv);
   install_crash_handler(A.out.empty() ? "/dev/null" : A.out);
@@ -124,6 +157,15 @@ int main(int argc, char** argv) {
       bool bad = contents(p) != l || p.to_string() != reflist::serialize(l);
       printf("init \"%s\": ada=%s model=%s\n", show(in).c_str(), list_show(contents(p)).c_str(), list_show(l).c_str());
       return bad ? 1 : 0;
+    }
+    if (sub == "seq") {
+      std::string in = unhex(json_get_str(doc, "init")), ops = json_get_str(doc, "ops");
+      std::vector<int> idx; size_t i = 0;
+      while (i < ops.size()) { size_t j = ops.find(',', i); if (j == std::string::npos) j = ops.size(); if (j > i) idx.push_back(atoi(ops.substr(i, j - i).c_str())); i = j + 1; }
+      std::vector<std::string> K2 = K; for (const char* k : {"m", "0", "z", "c"}) K2.push_back(k);
+      bool ok = run_seq(in, idx, K2, V);
+      for (auto& [c, vec] : R.by_class) for (auto& v : vec) printf("REPRODUCED %s\n  %s\n", c.c_str(), v.summary.c_str());
+      return ok ? 0 : 1;
     }
     // generic: start list + op
     reflist::List start;
@@ -275,6 +317,24 @@ int main(int argc, char** argv) {
     R.count("sort_long_lists", n3b);
   }
   R.count("sort_lists", n3);
+  // ---- (v) operation sequences ----------------------------------------------------------------------
+  {
+    const int D = int(A.geti("seqdepth", T ? 5 : 3));
+    const int nm = int(seq_menu().size());
+    std::vector<std::string> K2 = K; for (const char* k : {"m", "0", "z", "c"}) K2.push_back(k);
+    uint64_t nseq = 0;
+    for (const char* init : {"", "m=1&z=2&c=3&m=4", "b=2&a=1&b=3"})
+      for (int d = 1; d <= D; d++) {
+        Odometer od(std::vector<int>(d, nm));
+        while (od.next()) {
+          if (int(ord++ % ns) != sh) continue;
+          run_seq(init, od.idx, K2, V);
+          nseq++;
+        }
+      }
+    R.count("op_sequences", nseq);
+    extra["seq_depth"] = std::to_string(D); extra["seq_menu"] = std::to_string(nm);
+  }
   // ---- (iv) round trip on arbitrary bytes ----------------------------------------------------------
   std::vector<std::string> B = {std::string(1, '\0'), "&", "=", "+", "%", " ", "a", "~", "*", "\x7f", "\xc3", "\xff"};
   std::vector<std::string> S2 = {""};
